@@ -714,7 +714,7 @@ def _same(got, want):
 
 def child_main(W, plan, wfd, real_dir, scratch):
     out = os.fdopen(wfd, "w")
-    root = os.path.join(scratch, "db-%d" % os.getpid())
+    root = os.path.join(scratch, "db-%07d" % os.getpid())
     shutil.rmtree(root, ignore_errors=True)
     os.makedirs(root)
     try:
